@@ -418,8 +418,8 @@ def run_case(chk, stream, case):
             fails.append(oracle(sig, "%s on shape %s (bottom first; behaviours %s): observed %s, expected %s"
                                 % (op, slots, {k: (v["tx"], v["rx"], v["cons"]) for k, v in case["layers"].items()}, impl[:300], spec[:300])))
 
-    # data
-    for m in (7,):
+    # data (0: a payload that is false in a truth test is a payload like any other)
+    for m in (7, 0):
         del LOG[:]
         stack.send(m)
         compare("send %d" % m, ",".join(LOG), d.ask("stack send %d" % m), ",".join(spec_down(case, slots[::-1], m)), "C18:send-order")
